@@ -5,8 +5,10 @@ from fractions import Fraction
 from harness.core import numeval, pool, tb
 from harness.props import _shared
 
-PROOF_MODULE = "OdeVerif.Proofs.C02"
-THEOREMS = ["OdeVerif.C02.jacobian_correct", "OdeVerif.C02.jacobian_prefix_defect", "OdeVerif.C02.subsystem_lossless"]
+PROOF_MODULE = ["OdeVerif.Proofs.C02", "OdeVerif.Proofs.RefineJacobian"]
+GENERATED = ["PyJacobian"]
+THEOREMS = ["OdeVerif.C02.jacobian_correct", "OdeVerif.C02.jacobian_prefix_defect", "OdeVerif.C02.subsystem_lossless",
+            "OdeVerif.Refine.jacobianMatrix_refines", "OdeVerif.Refine.jacobianMatrix_correct"]
 LEVEL = "proof"
 
 NUM_SYSTEMS = [
